@@ -430,19 +430,38 @@ fn cmd_run(a: &Args) -> i32 {
                 return 2;
             }
         };
-        let rep = match replay(&min_start, &minimized, prop) {
+        let same = |r: &run::RunOutput| matches!(&r.violation, Some(v) if v.prop == f.violation.prop && v.class == f.violation.class);
+        let mut min_start = min_start;
+        let mut minimized = minimized;
+        let mut rep = match replay(&min_start, &minimized, prop) {
             Ok(r) => r,
             Err(HarnessError(e)) => {
                 eprintln!("HARNESS-ERROR while replaying: {}", e);
                 return 2;
             }
         };
-        let v = match rep.violation {
-            Some(v) if v.prop == f.violation.prop && v.class == f.violation.class => v,
+        if !same(&rep) {
+            // fall back to the trace exactly as it was generated
+            min_start = f.start_fen.clone();
+            minimized = f.trace.clone();
+            rep = match replay(&min_start, &minimized, prop) {
+                Ok(r) => r,
+                Err(HarnessError(e)) => {
+                    eprintln!("HARNESS-ERROR while replaying: {}", e);
+                    return 2;
+                }
+            };
+        }
+        let v = match rep.violation.clone() {
+            Some(v) if same(&rep) => v,
             _ => {
+                // The violation was observed during the batch but the very same operations do not
+                // produce it again in isolation: the code under test keeps state outside the objects
+                // the run created (process-wide statics), so no replay file can be exact. Reported as
+                // a harness error with the evidence, never as a VIOLATION that would not replay.
                 eprintln!(
-                    "HARNESS-ERROR minimised trace of run {} does not reproduce {} / {}",
-                    f.idx, f.violation.prop, f.violation.class
+                    "HARNESS-ERROR run {} showed {} / {} ({}) but neither its minimised nor its full trace reproduces it in isolation; the library appears to keep state across runs",
+                    f.idx, f.violation.prop, f.violation.class, f.violation.msg
                 );
                 return 2;
             }
